@@ -68,8 +68,72 @@ def tr_expr(t):
     raise ExtractError("unsupported expression in is_split_required: %r" % t[:120])
 
 
+_ITEM_BRACE = re.compile(r"(?:pub(?:\([a-z]+\))?\s+)?(?:unsafe\s+)?(?:mod|fn|impl|struct|enum|trait|union)\b")
+_ITEM_SEMI = re.compile(r"(?:pub(?:\([a-z]+\))?\s+)?(?:use|const|static|type)\b")
+
+
+def strip_cfg_verif(src):
+    """Remove everything guarded by `#[cfg(prqlc_verif)]` (verification hooks: never compiled in normal builds):
+    the attribute and the ONE item or statement it applies to -- an item with a body (`mod verif { .. }`, `fn`),
+    an item ending in `;` (`use`), a block statement `{ .. }`, or a statement running to the first `;` outside all
+    brackets (`let v = json!({..});`, `let (a, b) = { .. };`, `log::debug!(..);`, `ctx.verif_ensured(x);`).
+    Comment/string aware (works on the mask).  Fails closed: any other mention of `prqlc_verif` (cfg!(..),
+    cfg_attr, not(..), an attribute on an expression or a match arm) is an extraction error."""
+    from ..rustscan import match_brace as _mb
+    while True:
+        m = mask(src)
+        a = re.search(r"#\s*\[\s*cfg\s*\(\s*prqlc_verif\s*\)\s*\]", m)
+        if not a:
+            break
+        i = a.end()
+        while i < len(m) and m[i].isspace():
+            i += 1
+        # further attributes on the same item (`#[allow(..)]`) belong to it
+        while m.startswith("#", i):
+            ob = m.find("[", i)
+            if ob < 0 or m[i + 1:ob].strip():
+                raise ExtractError("cfg(prqlc_verif): attribute not understood")
+            i = _mb(m, ob) + 1
+            while i < len(m) and m[i].isspace():
+                i += 1
+        if i >= len(m):
+            raise ExtractError("cfg(prqlc_verif): nothing follows the attribute")
+        if m[i] == "{":
+            end = _mb(m, i) + 1
+        elif _ITEM_BRACE.match(m, i):
+            ob = m.find("{", i)
+            semi = m.find(";", i)
+            if ob < 0 or (0 <= semi < ob):
+                raise ExtractError("cfg(prqlc_verif): item without a body")
+            end = _mb(m, ob) + 1
+        elif _ITEM_SEMI.match(m, i) or re.match(r"let\b|[A-Za-z_(&*!]", m[i:]):
+            depth, j = 0, i
+            while j < len(m):
+                ch = m[j]
+                if ch in "([{":
+                    depth += 1
+                elif ch in ")]}":
+                    depth -= 1
+                    if depth < 0:
+                        raise ExtractError("cfg(prqlc_verif): guarded expression is not a statement (no `;` before the enclosing bracket closes)")
+                elif ch == ";" and depth == 0:
+                    break
+                j += 1
+            if j >= len(m):
+                raise ExtractError("cfg(prqlc_verif): unterminated statement")
+            end = j + 1
+        else:
+            raise ExtractError("cfg(prqlc_verif): cannot tell what the attribute guards: %r" % src[i:i + 40])
+        src = src[:a.start()] + src[end:]
+    if "prqlc_verif" in mask(src):
+        raise ExtractError("prqlc_verif is mentioned outside a plain #[cfg(prqlc_verif)] attribute")
+    return src
+
+
 def extract():
-    src = strip_comments(read("prqlc/prqlc/src/sql/pq/anchor.rs"))
+    src = strip_cfg_verif(strip_comments(read("prqlc/prqlc/src/sql/pq/anchor.rs")))
+    if re.search(r"\bverif(?:_[a-z_]+|::)", mask(src)):
+        raise ExtractError("a verification-hook name (verif_* / verif::) is used outside cfg(prqlc_verif) code")
     m = mask(src)
     s, e = block_after(src, m, r"fn\s+is_split_required\s*\([^)]*\)\s*->\s*bool\s*\{")
     body, mbody = src[s:e], m[s:e]
